@@ -263,7 +263,7 @@ namespace
         f.subject  = name;
         ci.subject = name;
         auto P = [&](size_t i) { return i < p.params.size() ? p.params[i] : 0u; };
-        bool allow_known = P(3) == 999;
+        bool allow_known = vf::allow_known("F19");
         CLeaf A(41), B(42);
         auto  bind = [&](unsigned which) -> CLeaf&
         {
